@@ -1,8 +1,10 @@
 package rules
 
 import (
+	"fmt"
 	"go/constant"
 	"go/token"
+	"strings"
 
 	"golang.org/x/tools/go/ssa"
 
@@ -17,7 +19,7 @@ import (
 // with the skip marker and found it different. A comparison of the raw tag
 // with the marker only recognises the bare `-`.
 
-type tnState struct{ tested bool }
+type tnState struct{ tested, noSep bool }
 type tnClient struct {
 	p      *core.Prog
 	fn     *ssa.Function
@@ -26,7 +28,7 @@ type tnClient struct {
 	bad    string
 }
 
-func (k *tnClient) Key(s tnState) string                              { if s.tested { return "t" }; return "f" }
+func (k *tnClient) Key(s tnState) string { return fmt.Sprint(s.tested, s.noSep) }
 func (k *tnClient) Phis(s tnState, _ *ssa.BasicBlock, _ int) tnState { return s }
 func (k *tnClient) Instr(s tnState, _ ssa.Instruction) (tnState, bool, []tnState) {
 	return s, true, nil
@@ -38,6 +40,26 @@ func (k *tnClient) Branch(s tnState, cond ssa.Value, outcome bool) (tnState, boo
 			break
 		}
 		cond, outcome = u.X, !outcome
+	}
+	// "the tag has no separator": strings.Index*(tag, sep) < 0 / == -1, !strings.Contains*(tag, sep)
+	if c, ok := cond.(*ssa.Call); ok && k.sepSearch(c) && strings.HasPrefix(c.Common().StaticCallee().Name(), "Contains") {
+		if !outcome {
+			s.noSep = true
+		}
+		return s, true
+	}
+	if bo, ok := cond.(*ssa.BinOp); ok {
+		if c, isCall := bo.X.(*ssa.Call); isCall && k.sepSearch(c) && strings.HasPrefix(c.Common().StaticCallee().Name(), "Index") {
+			if cv, isC := bo.Y.(*ssa.Const); isC && cv.Value != nil && cv.Value.Kind() == constant.Int {
+				n, _ := constant.Int64Val(cv.Value)
+				switch {
+				case bo.Op == token.LSS && n == 0 && outcome, bo.Op == token.GEQ && n == 0 && !outcome,
+					bo.Op == token.EQL && n == -1 && outcome, bo.Op == token.NEQ && n == -1 && !outcome:
+					s.noSep = true
+				}
+				return s, true
+			}
+		}
 	}
 	bo, ok := cond.(*ssa.BinOp)
 	if !ok || (bo.Op != token.EQL && bo.Op != token.NEQ) {
@@ -65,7 +87,7 @@ func (k *tnClient) Branch(s tnState, cond ssa.Value, outcome bool) (tnState, boo
 		}
 		break
 	}
-	if raw {
+	if raw && !s.noSep {
 		return s, true // the whole tag: says nothing about the name part of a tag with options
 	}
 	k.tests++
@@ -104,4 +126,13 @@ func tagSkipName(p *core.Prog, r *core.Result) {
 		r.Ok(".TAG-SKIP-NAME", p.Pos(tags.Pos()), fkey+": every path that returns a name from the tag has found its name part different from \"-\"")
 	}
 	r.Floor("tag_skip_marker_tests", k.tests, 1)
+}
+
+// sepSearch: a strings.Index*/Contains* call searching the raw tag (the parser's parameter).
+func (k *tnClient) sepSearch(c *ssa.Call) bool {
+	sc := c.Common().StaticCallee()
+	if sc == nil || funcPkgPath(sc) != "strings" || len(c.Common().Args) < 1 {
+		return false
+	}
+	return c.Common().Args[0] == ssa.Value(k.fn.Params[0])
 }
